@@ -136,10 +136,26 @@ func c17(c *ctx) {
 			return dg(parts...)
 		}}}
 	}
+	form := 0 // shape of the offer: where the selected token sits in its header value
 	mkReq := func(r int) []byte {
 		tag := string(rune('a' + r%26))
+		proto := "proto-" + tag + tag
+		ext := "ext-" + tag + "; param-" + tag + "=value-" + tag + tag + tag
+		pmd := "permessage-deflate; client_max_window_bits=1" + fmt.Sprint(r%6)
+		var pl, el string
+		switch form {
+		case 0:
+			pl = "Sec-WebSocket-Protocol: " + proto + ", other\r\n"
+			el = "Sec-WebSocket-Extensions: " + ext + ", " + pmd + "\r\n"
+		case 1: // the selected token is the whole header value
+			pl = "Sec-WebSocket-Protocol: " + proto + "\r\n"
+			el = "Sec-WebSocket-Extensions: " + ext + "\r\nSec-WebSocket-Extensions: " + pmd + "\r\n"
+		default: // the selected token comes last
+			pl = "Sec-WebSocket-Protocol: other, " + proto + "\r\n"
+			el = "Sec-WebSocket-Extensions: " + pmd + ", " + ext + "\r\n"
+		}
 		return []byte("GET /x HTTP/1.1\r\nHost: h\r\nUpgrade: websocket\r\nConnection: Upgrade\r\nSec-WebSocket-Version: 13\r\nSec-WebSocket-Key: dGhlIHNhbXBsZSBub25jZQ==\r\n" +
-			"Sec-WebSocket-Protocol: proto-" + tag + tag + ", other\r\nSec-WebSocket-Extensions: ext-" + tag + "; param-" + tag + "=value-" + tag + tag + tag + ", permessage-deflate; client_max_window_bits=1" + fmt.Sprint(r%6) + "\r\nX-Pad: " + strings.Repeat(tag, 100) + "\r\n\r\n")
+			pl + el + "X-Pad: " + strings.Repeat(tag, 100) + "\r\n\r\n")
 	}
 	up := func(mk func() ws.Upgrader) func(int) []result {
 		return func(r int) []result {
@@ -152,25 +168,28 @@ func c17(c *ctx) {
 			return hsResults(&hs)
 		}
 	}
-	trace("srv/Protocol", up(func() ws.Upgrader {
-		return ws.Upgrader{Protocol: func(p []byte) bool { return strings.HasPrefix(string(p), "proto-") }}
-	}))
-	trace("srv/Extension", up(func() ws.Upgrader {
-		return ws.Upgrader{Extension: func(o httphead.Option) bool { return strings.HasPrefix(string(o.Name), "ext-") }}
-	}))
-	trace("srv/NegotiateDeflate", up(func() ws.Upgrader {
-		e := &wsflate.Extension{Parameters: wsflate.Parameters{ClientMaxWindowBits: 10, ServerNoContextTakeover: true}}
-		return ws.Upgrader{Negotiate: e.Negotiate, Protocol: func(p []byte) bool { return true }}
-	}))
-	trace("srv/AcceptedParams", func(r int) []result {
-		e := &wsflate.Extension{Parameters: wsflate.Parameters{ClientMaxWindowBits: 10}}
-		u := ws.Upgrader{Negotiate: e.Negotiate}
-		rw := &rwBuf{r: bytes.NewReader(mkReq(r))}
-		if _, err := u.Upgrade(rw); err != nil {
-			vh.Fatal("c17: %v", err)
-		}
-		return []result{{"accepted", func() string { p, ok := e.Accepted(); return dg(fmt.Sprint(p, ok)) }}}
-	})
+	for form = 0; form < 3; form++ {
+		trace(fmt.Sprintf("srv/Protocol/%d", form), up(func() ws.Upgrader {
+			return ws.Upgrader{Protocol: func(p []byte) bool { return strings.HasPrefix(string(p), "proto-") }}
+		}))
+		trace(fmt.Sprintf("srv/Extension/%d", form), up(func() ws.Upgrader {
+			return ws.Upgrader{Extension: func(o httphead.Option) bool { return strings.HasPrefix(string(o.Name), "ext-") }}
+		}))
+		trace(fmt.Sprintf("srv/NegotiateDeflate/%d", form), up(func() ws.Upgrader {
+			e := &wsflate.Extension{Parameters: wsflate.Parameters{ClientMaxWindowBits: 10, ServerNoContextTakeover: true}}
+			return ws.Upgrader{Negotiate: e.Negotiate, Protocol: func(p []byte) bool { return true }}
+		}))
+		trace(fmt.Sprintf("srv/AcceptedParams/%d", form), func(r int) []result {
+			e := &wsflate.Extension{Parameters: wsflate.Parameters{ClientMaxWindowBits: 10}}
+			u := ws.Upgrader{Negotiate: e.Negotiate}
+			rw := &rwBuf{r: bytes.NewReader(mkReq(r))}
+			if _, err := u.Upgrade(rw); err != nil {
+				vh.Fatal("c17: %v", err)
+			}
+			return []result{{"accepted", func() string { p, ok := e.Accepted(); return dg(fmt.Sprint(p, ok)) }}}
+		})
+	}
+	form = 0
 	httpUp := func(mk func() ws.HTTPUpgrader) func(int) []result {
 		return func(r int) []result {
 			req, err := http.ReadRequest(bufioNewReader(bytes.NewReader(mkReq(r))))
